@@ -228,7 +228,7 @@ def circle_segment_from_three_points(x0, x1, x2):
     normal = np.cross(v0,v2)
     len_v2 = norm(v2)
     len_v0 = norm(v0)
-    theta  = np.arccos(np.clip(np.dot(v2,v0) / len_v2 / len_v0, -1.0, 1.0))
+    theta  = np.arctan2(norm(np.cross(v0,v2)), np.dot(v0,v2)) # angle in [0,pi]; accurate also near half turns (arccos is not)
     if not np.all([np.sign(i)==np.sign(j) or abs(i-j) < state.controlpoint_absolute_tolerance for (i,j) in zip(w2,normal)]):
         theta = 2*pi - theta
         normal = -normal
